@@ -65,12 +65,14 @@ def gen_bo(tape, spec):
     bpa = tape.int('batches_per_acquisition', 1, 4)
     init_form = tape.choice('initial_evidence', ['count', 'precomputed', 'zero', 'count'])
     n_init = tape.int('n_init', 1, 4) * bs if init_form == 'count' else 0
+    if n_init and bs > 1 and tape.chance('ragged_init', 1, 3):
+        n_init -= tape.int('ragged_i', 1, bs - 1)      # ELFI rounds it up to whole batches
     n_pre = tape.int('n_pre', 2, 6) if init_form == 'precomputed' else 0
     ui = tape.choice('update_interval', [1, 3, 10, 10 ** 6])
     acq = tape.choice('acquisition', ['lcbsc', 'lcbsc_small', 'uniform', 'maxvar', 'expintvar',
                                       'lcbsc'])
     n_acq_batches = tape.int('n_acq_batches', 1, 6)
-    n_evidence = n_pre + n_init + n_acq_batches * bs
+    n_evidence = n_pre + (-(-n_init // bs)) * bs + n_acq_batches * bs
     if bs > 1 and tape.chance('ragged_request', 1, 2):
         # a request that batch_size does not divide (the last batch is still consumed whole)
         n_evidence -= tape.int('ragged', 1, bs - 1)
